@@ -16,53 +16,59 @@ Notation Matc := (Mat (T:=T)).
 Variable d : nat.
 
 (* ------------------------------------------------------------------ _derivative_integral *)
-(* np.abs(x) < thr   (the masks of the source are np.abs(x*dt) < thr: dimensionless) *)
+(* np.abs(x) < thr *)
 Definition ltabs (x thr : T) : B := ogt Op thr (oabs Op x).
+(* x != 0   (the masks EdE*dt == 0, EdEdE*dt == 0 negated) *)
+Definition nonzero (x : T) : B := ogt Op (oabs Op x) (o0 Op).
 
-(* tmp2 = e^{i x dt}/x - 1/x,   tmp2[mask_EdE] = 1j*dt,   mask_EdE = np.abs(EdE*dt) < thr *)
-Definition di_tmp2 (thr x dt : T) : Cc :=
+(* tmp2 = (e^{i x dt} - 1)/x computed as 2j*sin(x dt/2)*cexp(x dt/2)/x (no cancellation);  [x*dt == 0] = 1j*dt *)
+Definition di_tmp2 (x dt : T) : Cc :=
+  let h := odiv Op (omul Op x dt) (o2 Op) in
+  let s2 := omul Op (o2 Op) (osin Op h) in
+  cite Op (nonzero (omul Op x dt))
+    (odiv Op (oneg Op (omul Op s2 (osin Op h))) x, odiv Op (omul Op s2 (ocos Op h)) x)
+    (o0 Op, dt).
+
+(* np.polyval([1/144, -1j/30, -1/8, 1j/3, 1/2], th): Horner scheme y = y*th + c *)
+Definition di_series_coeffs : list Cc :=
+  [(odiv Op (o1 Op) (oZ Op 144), o0 Op); (o0 Op, oneg Op (odiv Op (o1 Op) (oZ Op 30)));
+   (oneg Op (odiv Op (o1 Op) (oZ Op 8)), o0 Op); (o0 Op, odiv Op (o1 Op) (oZ Op 3)); (odiv Op (o1 Op) (oZ Op 2), o0 Op)].
+Definition horner (cs : list Cc) (th : T) : Cc := fold_left (fun y c => cadd Op (cscal Op th y) c) cs (c0 Op).
+
+(* tmp1 = int_0^dt t e^{ixt} dt = (tmp2 - 1j*dt*e^{i x dt})/x;  [|x dt| < thr_s] = dt**2 * Taylor series   (case Omega_pq == 0) *)
+Definition di_tmp1 (thr_s x dt : T) : Cc :=
   let th := omul Op x dt in
-  cite Op (ltabs th thr) (o0 Op, dt)
-    (osub Op (odiv Op (ocos Op th) x) (odiv Op (o1 Op) x), odiv Op (osin Op th) x).
+  let t2 := di_tmp2 x dt in
+  cite Op (ltabs th thr_s) (cscal Op (omul Op dt dt) (horner di_series_coeffs th))
+    (cdivr Op (csub Op t2 (cmul Op (o0 Op, dt) (cexp Op th))) x).
 
-(* tmp1 = (-1j*dt) e^{i x dt}/x + tmp2/x,   tmp1[mask_EdE] = dt**2/2     (case Omega_pq == 0) *)
-Definition di_tmp1 (thr x dt : T) : Cc :=
-  let th := omul Op x dt in
-  let t2 := di_tmp2 thr x dt in
-  let cx := odiv Op (ocos Op th) x in
-  let sx := odiv Op (osin Op th) x in
-  cite Op (ltabs th thr) (odiv Op (omul Op dt dt) (o2 Op), o0 Op)
-    (oadd Op (omul Op sx dt) (odiv Op (fst t2) x),
-     oadd Op (oneg Op (omul Op cx dt)) (odiv Op (snd t2) x)).
-
-(* ((1 - e^{i y dt})/y [masked: -1j*dt] + tmp2) / Omega_pq,  y = x + Omega_pq   (case Omega_pq != 0) *)
-Definition di_nz (thr thr_y x dEpq dt : T) : Cc :=
+(* (-(e^{i y dt} - 1)/y + tmp2) / Omega_pq,  y = x + Omega_pq   (case Omega_pq != 0) *)
+Definition di_nz (x dEpq dt : T) : Cc :=
   let y := oadd Op x dEpq in
-  let th := omul Op y dt in
-  let t1 := cite Op (ltabs th thr_y) (o0 Op, oneg Op dt)
-              (odiv Op (osub Op (o1 Op) (ocos Op th)) y, odiv Op (oneg Op (osin Op th)) y) in
-  cdivr Op (cadd Op t1 (di_tmp2 thr x dt)) dEpq.
+  cdivr Op (cadd Op (cneg Op (di_tmp2 y dt)) (di_tmp2 x dt)) dEpq.
 
-(* out[o, p, q, m, n] for one frequency w *)
-Definition deriv_integral_entry (th3 : T * T * T) (w : T) (ev : list T) (dt : T) (p q m n : nat) : Cc :=
-  let '(thr_dE, thr_x, thr_y) := th3 in      (* masks on dE, EdE, EdEdE *)
+(* out[o, p, q, m, n] for one frequency w; th2 = (threshold of mask_dE, threshold of mask_series) *)
+Definition deriv_integral_entry (th2 : T * T) (w : T) (ev : list T) (dt : T) (p q m n : nat) : Cc :=
   let dEpq := osub Op (vg Op ev p) (vg Op ev q) in
   let x := oadd Op w (osub Op (vg Op ev m) (vg Op ev n)) in
-  cite Op (ltabs (omul Op dEpq dt) thr_dE) (di_tmp1 thr_x x dt) (di_nz thr_x thr_y x dEpq dt).
+  cite Op (ltabs (omul Op dEpq dt) (fst th2)) (di_tmp1 (snd th2) x dt) (di_nz x dEpq dt).
 
 Definition Arr4 : Type := list (list (list (list Cc))).
 Definition a4get (A : Arr4) (p q m n : nat) : Cc := nth n (nth m (nth q (nth p A []) []) []) (c0 Op).
-Definition deriv_integral (th3 : T * T * T) (w : T) (ev : list T) (dt : T) : Arr4 :=
+Definition deriv_integral (th3 : T * T) (w : T) (ev : list T) (dt : T) : Arr4 :=
   build d (fun p => build d (fun q => build d (fun m => build d (fun n =>
     deriv_integral_entry th3 w ev dt p q m n)))).
 
-(* the real denominators the code divides by (all of them are guarded by a mask) *)
-Definition di_denoms (th3 : T * T * T) (w : T) (ev : list T) (dt : T) (p q m n : nat) : list (B * T) :=
-  let '(thr_dE, thr_x, thr_y) := th3 in
+(* the real denominators the code divides by, each with its guard:
+   [di_denoms_masked]: executed when the mask is false;  [di_denoms_nz]: executed when the test x != 0 is true *)
+Definition di_denoms_masked (th2 : T * T) (w : T) (ev : list T) (dt : T) (p q m n : nat) : list (B * T) :=
   let dEpq := osub Op (vg Op ev p) (vg Op ev q) in
   let x := oadd Op w (osub Op (vg Op ev m) (vg Op ev n)) in
-  [(ltabs (omul Op x dt) thr_x, x); (ltabs (omul Op (oadd Op x dEpq) dt) thr_y, oadd Op x dEpq);
-   (ltabs (omul Op dEpq dt) thr_dE, dEpq)].
+  [(ltabs (omul Op dEpq dt) (fst th2), dEpq); (ltabs (omul Op x dt) (snd th2), x)].
+Definition di_denoms_nz (w : T) (ev : list T) (dt : T) (p q m n : nat) : list (B * T) :=
+  let dEpq := osub Op (vg Op ev p) (vg Op ev q) in
+  let x := oadd Op w (osub Op (vg Op ev m) (vg Op ev n)) in
+  [(nonzero (omul Op x dt), x); (nonzero (omul Op (oadd Op x dEpq) dt), oadd Op x dEpq)].
 
 (* ------------------------------------------------------------------ _liouville_derivative *)
 (* 1j*(1 - e^{i Om dt})/Om *)
@@ -136,7 +142,7 @@ Definition sh_BT (Vs basis : list Matc) : list (list Matc) :=
 Definition sh_ints (thr : T) (evs : list (list T)) (dts omega : list T) : list (list Matc) :=
   build (length dts) (fun g => map (fun w => foi Op d thr w (nthv evs g) (vg Op dts g)) omega).
 (* deriv_integral[g][o] *)
-Definition sh_DIs (thr_di : T * T * T) (evs : list (list T)) (dts omega : list T) : list (list Arr4) :=
+Definition sh_DIs (thr_di : T * T) (evs : list (list T)) (dts omega : list T) : list (list Arr4) :=
   build (length dts) (fun g => map (fun w => deriv_integral thr_di w (nthv evs g) (vg Op dts g)) omega).
 (* util.cexp(omega*t[g]) *)
 Definition sh_phase (ts omega : list T) (G : nat) : list (list Cc) :=
@@ -231,7 +237,7 @@ Definition pair_of (G nj no : nat) (phases : list (list Cc)) (BTs ints : list (l
 
 (* calculate_derivative_of_control_matrix_from_scratch: result [a][h][s][o][k]
    (the package's axis order is [h, o, s, a, k]); ncd[a][h][g] *)
-Definition ctrlmat_deriv (thr : T) (thr_di : T * T * T) (thr_A : T) (evs : list (list T)) (Vs Qs : list Matc) (omega : list T)
+Definition ctrlmat_deriv (thr : T) (thr_di : T * T) (thr_A : T) (evs : list (list T)) (Vs Qs : list Matc) (omega : list T)
            (basis nopers copers : list Matc) (ncoeffs : list (list T)) (dts ts : list T)
            (use_ncd : bool) (ncd : list (list (list T))) : list (list (list (list (list Cc)))) :=
   let G := length dts in let nj := length basis in let no := length omega in
